@@ -1073,10 +1073,31 @@ where
     LM: MatchLiteral,
     <T as FromStr>::Err: Debug,
 {
-    use self::detail::FlatOp;
-
     let mut flat_nodes = FlatNodeVec::<T>::new();
     let mut flat_ops = FlatOpVec::<T>::new();
+    flatten_vecs_into(deep_expr, prio_offset, &mut flat_nodes, &mut flat_ops);
+    (flat_nodes, flat_ops)
+}
+
+/// Appends the flattened nodes and operators of the deep expression to the passed vectors. The
+/// recursion only hands down references, since the vectors with their inline storage are too
+/// large to be kept on the stack once per nesting level.
+fn flatten_vecs_into<T, OF, LM>(
+    deep_expr: &DeepEx<T, OF, LM>,
+    prio_offset: i64,
+    flat_nodes: &mut FlatNodeVec<T>,
+    flat_ops: &mut FlatOpVec<T>,
+) where
+    T: DataType,
+    OF: MakeOperators<T>,
+    LM: MatchLiteral,
+    <T as FromStr>::Err: Debug,
+{
+    use self::detail::FlatOp;
+
+    // nodes and operators of this expression start here
+    let nodes_start = flat_nodes.len();
+    let ops_start = flat_ops.len();
 
     for (node_idx, node) in deep_expr.nodes().iter().enumerate() {
         match node {
@@ -1089,9 +1110,7 @@ where
                 flat_nodes.push(flat_node);
             }
             DeepNode::Expr(e) => {
-                let (mut sub_nodes, mut sub_ops) = flatten_vecs(e, prio_offset + 100i64);
-                flat_nodes.append(&mut sub_nodes);
-                flat_ops.append(&mut sub_ops);
+                flatten_vecs_into(e, prio_offset + 100i64, flat_nodes, flat_ops);
             }
         };
         if node_idx < deep_expr.bin_ops().ops.len() {
@@ -1112,10 +1131,14 @@ where
     }
 
     if deep_expr.unary_op().op.len() > 0 {
-        if !flat_ops.is_empty() {
+        if flat_ops.len() > ops_start {
             // find the last binary operator with the lowest priority of this expression,
             // since this will be executed as the last one
-            let low_prio_op = match flat_ops.iter_mut().rev().min_by_key(|op| op.bin_op.op.prio) {
+            let low_prio_op = match flat_ops[ops_start..]
+                .iter_mut()
+                .rev()
+                .min_by_key(|op| op.bin_op.op.prio)
+            {
                 None => panic!("cannot have more than one flat node but no binary ops"),
                 Some(x) => x,
             };
@@ -1123,12 +1146,11 @@ where
                 .unary_op
                 .append_after(deep_expr.unary_op().op.clone());
         } else {
-            flat_nodes[0]
+            flat_nodes[nodes_start]
                 .unary_op
                 .append_after(deep_expr.unary_op().op.clone());
         }
     }
-    (flat_nodes, flat_ops)
 }
 
 impl<T, OF, LM> Calculate<'_, T> for FlatEx<T, OF, LM>
